@@ -948,15 +948,30 @@ def rule_T4(ctx) -> None:
     fn = mod.func("ProtoClassMetadata._get_cls_by_field")
     ctx.analysed("ProtoClassMetadata._get_cls_by_field")
     found = set()
-    for n in ast.walk(fn):
-        if isinstance(n, ast.Tuple) and len(n.elts) == 3 and isinstance(n.elts[0], ast.Constant) and isinstance(n.elts[2], ast.Call) \
-                and ast.unparse(n.elts[2].func) == "dataclass_field" and len(n.elts[2].args) >= 2:
-            c = n.elts[2]
-            num = c.args[0].value if isinstance(c.args[0], ast.Constant) else None
-            idx = None
-            if isinstance(c.args[1], ast.Subscript) and isinstance(c.args[1].slice, ast.Constant):
-                idx = c.args[1].slice.value
-            found.add((n.elts[0].value, num, idx))
+    # the Entry class may be built in a helper of the metadata class that _get_cls_by_field calls
+    scope = [fn]
+    for c_ in ast.walk(fn):
+        if isinstance(c_, ast.Call) and isinstance(c_.func, ast.Attribute) and mod.has(f"ProtoClassMetadata.{c_.func.attr}") and mod.func(f"ProtoClassMetadata.{c_.func.attr}") not in scope:
+            scope.append(mod.func(f"ProtoClassMetadata.{c_.func.attr}"))
+    for f_ in scope:
+        # locals bound by unpacking the pair of map types: `key_type, value_type = meta.map_types`
+        unpacked = {}
+        for a_ in ast.walk(f_):
+            if isinstance(a_, ast.Assign) and len(a_.targets) == 1 and isinstance(a_.targets[0], ast.Tuple) and isinstance(a_.value, ast.Attribute) and a_.value.attr == "map_types":
+                for k_, e_ in enumerate(a_.targets[0].elts):
+                    if isinstance(e_, ast.Name):
+                        unpacked[e_.id] = k_
+        for n in ast.walk(f_):
+            if isinstance(n, ast.Tuple) and len(n.elts) == 3 and isinstance(n.elts[0], ast.Constant) and isinstance(n.elts[2], ast.Call) \
+                    and ast.unparse(n.elts[2].func) == "dataclass_field" and len(n.elts[2].args) >= 2:
+                c = n.elts[2]
+                num = c.args[0].value if isinstance(c.args[0], ast.Constant) else None
+                idx = None
+                if isinstance(c.args[1], ast.Subscript) and isinstance(c.args[1].slice, ast.Constant):
+                    idx = c.args[1].slice.value
+                elif isinstance(c.args[1], ast.Name) and c.args[1].id in unpacked:
+                    idx = unpacked[c.args[1].id]
+                found.add((n.elts[0].value, num, idx))
     want2 = {("key", 1, 0), ("value", 2, 1)}
     if found == want2:
         ctx.proved("T4", "Entry:field-numbering", mod.loc(fn))
